@@ -104,6 +104,11 @@ def run(ctx):
             ev = rng.choice(['MAR', 'HM', '50K', '100K', '20KW', '10K', '5M', '10M', '30K', '24HR'])
             t = '%d:%02d:%02d.%s' % (rng.randint(1, 11), rng.randint(0, 59), rng.randint(0, 59), ''.join(rng.choice('0123456789') for _ in range(rng.choice([1, 2, 2, 3]))))
             yield ev, t, 'all', rng.choice([1, 2, 2, 3, None])
+        # slow but admissible track results of an hour and more whose decimals are all zero (the printed form drops them): h:mm:ss.00
+        for ev in ['3000', '5000', '10000', '3000SC', '2MILE', '3000W', '5K', '10K', '3000m', '1500', '800']:
+            for (h_, m_, s_) in [(1, 0, 0), (1, 2, 3), (1, 39, 59), (1, 40, 0), (1, 20, 30), (2, 0, 0), (1, 0, 1), (2, 46, 39)]:
+                for tail in ('.00', '.0', '', '.50'):
+                    yield ev, '%d:%02d:%02d%s' % (h_, m_, s_, tail), 'all', None
     for i, (ev, t, g_, prec) in enumerate(all_requests()):
         st, r = chk(ev, t, g_, prec)
         stats[st.split(':')[0]] += 1
@@ -186,6 +191,7 @@ def run(ctx):
             if timed and prec is not None and '.' not in r and st2 != 'ok': why += ' (formatted with a precision option)'
             elif timed and dist and dist >= 800 and ':' not in r: why += ' (plain seconds for a distance of 800 m or more are re-read as minutes)'
             elif timed and dist and dist <= 200 and ':' in r and '.' not in r: why += ' (m:ss for a sprint is re-read as seconds.hundredths)'
+            elif timed and prec is None and ev in ('800', '1500', '3000') and re.match(r'^\d+:\d\d:\d\d$', r): why += ' (h:mm:ss without decimals for 800 / 1500 / 3000 is re-read as mm:ss.cc)'
             elif not timed and re.match(r'^\d{3,}\.\d\d$', r): why += ' (field result of 100 m or more: PAT_PERF admits two integer digits)'
             fail('validating %r again returns it unchanged' % r, r2 if st2 == 'ok' else st2, why)
     # ---- the record window for every record event x gender spelling, marks around 1.2 x the record
